@@ -12,6 +12,10 @@ use std::sync::Mutex;
 use std::time::Instant;
 
 pub const VERIF_ROOT: &str = "/verif";
+/// evidence, replays and known findings live here (tools/mutlab.py points its lanes elsewhere)
+pub fn verif_root() -> PathBuf {
+    PathBuf::from(std::env::var("VERIF_ROOT_DIR").unwrap_or_else(|_| VERIF_ROOT.to_string()))
+}
 pub static PANIC_LOG: Mutex<Vec<String>> = Mutex::new(Vec::new());
 /// set by main: re-executes one replay description, true if the violation is still there
 pub static REPLAYER: std::sync::OnceLock<fn(&str, &Value) -> bool> = std::sync::OnceLock::new();
@@ -308,7 +312,7 @@ pub struct KnownFindings {
 
 impl KnownFindings {
     pub fn load() -> Self {
-        let p = Path::new(VERIF_ROOT).join("known_findings.json");
+        let p = verif_root().join("known_findings.json");
         let mut known = vec![];
         if let Ok(s) = std::fs::read_to_string(&p) {
             if let Ok(v) = serde_json::from_str::<Value>(&s) {
@@ -540,7 +544,7 @@ impl Report {
         // replays
         let mut replay_paths = vec![];
         for v in &new_viols {
-            let dir = Path::new(VERIF_ROOT).join("replays").join(&self.property);
+            let dir = verif_root().join("replays").join(&self.property);
             let _ = std::fs::create_dir_all(&dir);
             let body = json!({
                 "property": v.property, "signature": v.signature, "message": v.message, "replay": v.replay,
@@ -561,7 +565,7 @@ impl Report {
             "violations": new_viols.len(),
             "machinery_errors": mach,
         });
-        let evdir = Path::new(VERIF_ROOT).join("evidence");
+        let evdir = verif_root().join("evidence");
         let _ = std::fs::create_dir_all(&evdir);
         let evp = evdir.join(format!("{}.json", self.property));
         std::fs::write(&evp, serde_json::to_string_pretty(&ev).unwrap() + "\n").expect("write evidence");
@@ -711,7 +715,10 @@ pub fn par_threads() -> usize {
 }
 
 pub fn production_cli() -> PathBuf {
-    PathBuf::from("/verif/target/cli/release/txtpp")
+    match std::env::var("VERIF_CLI") {
+        Ok(p) => PathBuf::from(p),
+        Err(_) => PathBuf::from("/verif/target/cli/release/txtpp"),
+    }
 }
 
 /// Run the production CLI (built without the `verif` feature) in `cwd`. Returns (exit code or -signal, timed out)
